@@ -75,6 +75,11 @@ def replay(ctx, recs, stats):
         vin = sl.vin_of(alts[0])
         gens = alts[0].get("gens", 1)
         variants = (False, True) if has_tuple_variant(els) else (False,)
+        if alts[0].get("share"):
+            # object sharing: a tuple branch would become a new Sequence object per position
+            variants = (False,)
+            occ = collections.Counter(c for e in els for c in e["ch"])
+            stats["shared_objects"] += sum(1 for c in occ.values() if c > 1)
         for tuples in variants:
             # gens = 2: the program is executed a second time (all objects constructed anew) while
             # the files the first execution wrote are there; the expectation is the same
@@ -554,7 +559,7 @@ def _run(ctx):
                "{} if no other branch; ignored and transparent; counts with the copy it was handed)")
     stats = {"observations": 0, "policy_trees": 0, "policies_matched": collections.Counter(),
              "other_key_named": 0, "c2s_rejected": 0, "c2s_unvalidated": 0, "trees_by_family": collections.Counter(),
-             "peeked": 0, "warm_executions": 0, "other_inputs": 0}
+             "peeked": 0, "warm_executions": 0, "other_inputs": 0, "shared_objects": 0}
     kinds_seen = set()
     # ---- design level (background thread): vacuity guard with -coverage on the 3-token family
     # (coverage slows TLC several times), all families of the tier without it, defect models
@@ -564,7 +569,13 @@ def _run(ctx):
             # MakeFilename.__call__ merging the run-time context into the dictionaries it holds;
             # alter_sequence really replacing a Split branch that has a filled Cache
             lambda: demo_switch(ctx, "StaticContext_mfshare.cfg", "MFRunCopies=FALSE", ("RunKeepsStatic",)),
-            lambda: demo_switch(ctx, "StaticContext_alter.cfg", "AlterApplied=TRUE", ("SeenIsExpected",))]
+            lambda: demo_switch(ctx, "StaticContext_alter.cfg", "AlterApplied=TRUE", ("SeenIsExpected",)),
+            # element OBJECT SHARING (action Reuse; F11): one object at several positions, every
+            # position's followers see the fold of that position's own prefix; guard: a SetContext
+            # that keeps the value it formatted first
+            lambda: ctx.mc("StaticContext", "StaticContext_share%s.cfg" % ("_t" if ctx.thorough else "")),
+            lambda: demo_switch(ctx, "StaticContext_sharecache.cfg", "SetContext caches its formatted value "
+                                "(one object at two positions)", ("SeenIsExpected",))]
     if ctx.thorough:
         jobs.append(lambda: ctx.mc("StaticContext", "StaticContext_sim.cfg", simulate=2000, depth=44))
         jobs.append(lambda: demo_abort(ctx))
@@ -583,6 +594,7 @@ def _run(ctx):
         exports = (["StaticContext_thorough_export_%s.cfg" % f for f in ("F1", "F2", "N", "A", "B", "C")] if ctx.thorough
                    else ["StaticContext_quick_export.cfg", "StaticContext_quick_export_B.cfg",
                          "StaticContext_new_export.cfg"])
+        exports.append("StaticContext_share%s_export.cfg" % ("_t" if ctx.thorough else ""))
         # TLC exports with one worker (PrintT): several exports run side by side while the
         # records of an earlier one are replayed
         for cfg, recs in exports_ahead(ctx, exports, 2 if ctx.thorough else 3):
@@ -607,8 +619,8 @@ def _run(ctx):
     # kind of object and the "context requested before placement" step must occur
     want = set(["set", "store", "ucfs", "mf", "mfd", "mfe", "write", "cache", "data", "acc",
                 "seq", "src", "srcf", "split"])
-    if (want - kinds_seen or not stats["peeked"] or len(stats["trees_by_family"]) < (14 if ctx.thorough else 12)
-            or not stats["warm_executions"] or not stats["other_inputs"]):
+    if (want - kinds_seen or not stats["peeked"] or len(stats["trees_by_family"]) < (16 if ctx.thorough else 14)
+            or not stats["warm_executions"] or not stats["other_inputs"] or not stats["shared_objects"]):
         raise core.MachineryError("vacuous model: kinds missing %s, peeked %d, families %s, second executions "
                                   "that found files %d, trees with run-time contexts carrying static keys %d" % (
             sorted(want - kinds_seen), stats["peeked"], sorted(stats["trees_by_family"]),
